@@ -11486,7 +11486,11 @@ class Use_Stmt(StmtBase):  # pylint: disable=invalid-name
         # Missing 'ONLY' specification after 'USE Module_Name,'
         if not line:
             return None
-        if line[:4].upper() == "ONLY":
+        if line[:4].upper() == "ONLY" and not (
+            len(line) > 4 and (line[4].isalnum() or line[4] == "_")
+        ):
+            # 'ONLY' is the keyword, not the start of a local name such as
+            # 'only_n' in a rename list.
             line = line[4:].lstrip()
             if not line:
                 # Expected ':' but there is nothing after the 'ONLY'
